@@ -332,6 +332,7 @@ class Engine:
         self.types = typedb
         self.overflow_checks = overflow_checks
         self.stubs = {}                   # exact callee text or normalised name -> fn(engine, args, frame, callee)
+        self.stub_patterns = []           # (compiled regex on the normalised callee, fn(engine, args, frame, match)): per-check stubs
         self.contracts = []               # [(compiled regex on the normalised callee, handler)]
         self.solver = z3.Solver()
         self.solver.set('timeout', timeout_ms)
@@ -1013,6 +1014,12 @@ class Engine:
             stub = self.stubs.get(ncallee)
         if stub is not None:
             return stub(self, args, frame, callee)
+        if self.stub_patterns:
+            n0 = norm_type(callee)
+            for rx, handler in self.stub_patterns:
+                m = rx.match(n0)
+                if m:
+                    return handler(self, args, frame, m)
         f = self.resolve(callee, frame.fn)
         if f is not None:
             return self.call_mir(f, args, frame.depth + 1)
